@@ -10,8 +10,15 @@
 void
 f_set_heart_beat (void)
 {
-  int tick = (int)(sp--)->u.number;
-  set_heart_beat (current_object, tick);
+  int64_t tick = (sp--)->u.number;
+
+  /* an LPC integer is wider than the interval: a huge interval stays huge (and a
+   * multiple of 2^32 is not taken for 0, which switches the heart beat off) */
+  if (tick > INT_MAX)
+    tick = INT_MAX;
+  else if (tick < INT_MIN)
+    tick = INT_MIN;
+  set_heart_beat (current_object, (int) tick);
 }
 #endif
 
